@@ -14,6 +14,11 @@ SgdCfgs == {[opt |-> "sgd", a |-> o.a, b |-> o.b, c |-> o.c, x0 |-> o.x0, alpha 
                      [a |-> <<2, 1, 3>>, b |-> <<0, 1, 0 - 1>>, c |-> 0 - 1, x0 |-> <<R(1), R(0 - 1), Q(1, 2)>>]},
               al \in {Q(1, 4), Q(1, 16)},
               m \in {<<RZ, FALSE>>, <<Q(1, 2), FALSE>>, <<Q(3, 4), FALSE>>, <<Q(1, 2), TRUE>>, <<Q(3, 4), TRUE>>, <<RZ, TRUE>>}}
+  \* resonant hyper-parameters: step size x curvature x (1 + momentum) = 1 (2/5 x 2 x 5/4; 1/5 x 4 x 5/4): the look-ahead point of the
+  \* second Nesterov step IS the minimiser - its gradient vanishes while the velocity does not, and the iterate keeps moving
+  \cup {[opt |-> "sgd", a |-> o.a, b |-> o.b, c |-> 0, x0 |-> o.x0, alpha |-> o.al, mu |-> Q(1, 4), nesterov |-> nes] :
+              o \in {[a |-> <<1>>, b |-> <<0 - 2>>, x0 |-> <<R(2)>>, al |-> Q(2, 5)], [a |-> <<2>>, b |-> <<0 - 4>>, x0 |-> <<R(0)>>, al |-> Q(1, 5)]},
+              nes \in {TRUE, FALSE}}
 \* one-sided objective: after crossing the kink the gradient of that coordinate is exactly zero while its moments are not;
 \* b2 with b2 / (1 + b2) a rational square keeps sqrt(vhat) rational for the first zero-gradient step
 HingeCfgs == {[opt |-> "adam", hinge |-> TRUE, cw |-> o.cw, at |-> o.at, x0 |-> o.x0, alpha |-> Q(1, 2), b1 |-> b[1], b2 |-> b[2], eps |-> e] :
